@@ -956,6 +956,39 @@ pub fn tz_child(seed: u64, n: usize) {
         let desc2 = format!("date_trunc('{}', {}) [epoch {}]", part2, ts, secs);
         judge_trunc_span(part2, span, ts, eval_real(&[], &e2), &desc2);
     }
+    // the same local clock time means the same instant however it enters: built from its parts (`make_timestamp`, what a
+    // TIMESTAMP column does) or written as a text literal compared with / cast to a timestamp — in particular in the repeated
+    // hour at the end of daylight saving time, where the clock time is ambiguous (both ways must resolve it alike)
+    let mut folds: Vec<chrono::NaiveDateTime> = Vec::new();
+    let mut day = NaiveDate::from_ymd_opt(2015, 1, 1).unwrap();
+    while day.year() < 2026 {
+        for q in 0..96u32 {
+            let t = day.and_hms_opt(q / 4, (q % 4) * 15, 7).unwrap();
+            if let chrono::LocalResult::Ambiguous(_, _) = Local.from_local_datetime(&t) { folds.push(t); }
+        }
+        day = day.succ_opt().unwrap();
+    }
+    for i in 0..n.min(400) {
+        let local = if i % 2 == 0 && !folds.is_empty() { *rng.pick(&folds) } else {
+            match NaiveDate::from_ymd_opt(2015 + rng.below(11) as i32, 1 + rng.below(12) as u32, 1 + rng.below(28) as u32).and_then(|d| d.and_hms_opt(rng.below(24) as u32, rng.below(60) as u32, rng.below(60) as u32)) { Some(t) => t, None => continue }
+        };
+        if let chrono::LocalResult::None = Local.from_local_datetime(&local) { continue; }
+        let text = local.format("%Y-%m-%d %H:%M:%S").to_string();
+        let parts: Vec<ExpressionTree> = [local.year() as i64, local.month() as i64, local.day() as i64, local.hour() as i64, local.minute() as i64, local.second() as i64, 0].iter().map(|v| ExpressionTree::Value(Value::Int(*v))).collect();
+        let built = call(Function::MakeTimestamp, parts);
+        let lit_text = ExpressionTree::Value(Value::String(text.clone()));
+        for (flip, name) in [(false, "built = 'text'"), (true, "'text' = built")] {
+            let (l, r) = if flip { (lit_text.clone(), built.clone()) } else { (built.clone(), lit_text.clone()) };
+            let e = ExpressionTree::Compare { operator: CompareOperator::Equal, left: Box::new(l), right: Box::new(r) };
+            checks += 1;
+            match eval_real(&[], &e) {
+                Ev::Ok(Value::Bool(true)) => {}
+                Ev::Ok(v) => println!("FAIL tz-same-clock-time-different-instant :: {} with the clock time {} (make_timestamp of its parts against the text literal) is {}", name, text, v),
+                Ev::Err(_) => {}
+                Ev::Panic(m) => println!("FAIL panic:tz :: {} with the clock time {}: {}", name, text, m),
+            }
+        }
+    }
     checks += tz_composed(&mut rng, n);
     println!("CHECKS {}", checks);
 }
